@@ -268,29 +268,44 @@ fn fault_points(ctx: &Ctx) {
             ctx.transitions(3);
             ctx.state(hash_str(&case.to_string()));
             let mut faults = 0;
-            for _ in 0..3 {
+            let mut ok = true;
+            for sweep in 0..3 {
+                let start_state: Vec<f64> = chain.current_state().clone();
+                let n_before = log.lock().unwrap().get(&0).map(|l| l.len()).unwrap_or(0);
                 let r = std::panic::catch_unwind(std::panic::AssertUnwindSafe(|| {
                     chain.step();
                 }));
+                let calls: Vec<(usize, Vec<f64>, f64)> = log.lock().unwrap().get(&0).cloned().unwrap_or_default()[n_before..].to_vec();
+                // every completed call of this sweep saw the freshest state
+                let mut running = start_state.clone();
+                for (n, (idx, given, val)) in calls.iter().enumerate() {
+                    if bv(given) != bv(&running) {
+                        ctx.violation(Violation::new("C05:state-after-fault", format!("d={d}, conditional panicked at call {k}: in sweep {sweep}, call {n} (coordinate {idx}) was given a state that differs from the chain's freshest state (lengths {} vs {d})", given.len()), case.clone()));
+                        ok = false;
+                        break;
+                    }
+                    running[*idx] = *val;
+                }
+                if !ok {
+                    break;
+                }
+                let now = chain.current_state().clone();
                 if r.is_err() {
                     faults += 1;
-                }
-            }
-            // list model: replay the log (every completed call wrote its value to its coordinate)
-            let lg = log.lock().unwrap().get(&0).cloned().unwrap_or_default();
-            let mut model = init.clone();
-            let mut ok = true;
-            for (n, (idx, given, val)) in lg.iter().enumerate() {
-                if bv(given) != bv(&model) {
-                    ctx.violation(Violation::new("C05:state-after-fault", format!("d={d}, conditional panicked at call {k}: call {n} (coordinate {idx}) was given a state that differs from the freshest state (lengths {} vs {d})", given.len()), case.clone()));
+                    // after a fault the chain may hold the partially refreshed state, or may have been rolled back to the
+                    // state at the start of the interrupted sweep — but it must not lose or invent coordinates
+                    if bv(&now) != bv(&running) && bv(&now) != bv(&start_state) {
+                        ctx.violation(Violation::new("C05:state-after-fault", format!("d={d}, conditional panicked at call {k}: afterwards the chain holds {now:?}; neither the partially refreshed state {running:?} nor the state before the sweep {start_state:?}"), case.clone()));
+                        ok = false;
+                        break;
+                    }
+                } else if bv(&now) != bv(&running) || calls.len() != d {
+                    ctx.violation(Violation::new("C05:state-after-fault", format!("d={d}, fault at call {k}: sweep {sweep} (no fault) made {} calls and left {now:?}, the list model gives {running:?}", calls.len()), case.clone()));
                     ok = false;
                     break;
                 }
-                model[*idx] = *val;
             }
-            if ok && bv(chain.current_state()) != bv(&model) {
-                ctx.violation(Violation::new("C05:state-after-fault", format!("d={d}, conditional panicked at call {k}: the chain holds {:?} but the coordinates written so far give {:?}", chain.current_state(), model), case.clone()));
-            } else if ok {
+            if ok {
                 ctx.outcome("fault-points-ok", 1);
             }
             if faults != 1 {
